@@ -29,18 +29,26 @@ def run(ctx, rep):
 
     # ---------------- R10.1 -------------------------------------------------------------
     def step(ms, pi, qi, learn):
-        pend, dis = ms
+        pend, dis, kind = ms          # kind of the pending error: 0 unknown, 1 UnexpectedEof, 2 known to be something else
         for f in M.dec_out:
             if f(pi, qi, learn) == "err":
-                pend, dis = True, False
+                pend, dis, kind = True, False, 0
         for o, v in norm_learn(learn):
             fl = M.fact_flags(o, v)
             if "no_trunc" in fl:
                 dis = True
             if "can_trunc" in fl:
                 dis = False
-        return (pend, dis)
-    seen = run_monitor(P, (False, False), step)
+            if "eof" in fl:
+                if kind == 2:
+                    return None      # the same error's kind answered differently before: infeasible
+                kind = 1
+            if "not-eof" in fl:
+                if kind == 1:
+                    return None
+                kind = 2
+        return (pend, dis, kind)
+    seen = run_monitor(P, (False, False, 0), step)
     bad = next(((pi, ms) for (pi, ms) in seen if ms[0] and ms[1] and P.gnode(pi) in fsm), None)
     if bad:
         n = P.gnode(bad[0])
